@@ -192,7 +192,11 @@ impl OligoComputer {
                 let records_arc_clone = Arc::clone(&records_arc);
                 let header_len = header.len();
                 scope.spawn(move |_| {
+                    #[cfg(kmertools_verif)]
+                    ktio::verif::point("start", 0);
                     loop {
+                        #[cfg(kmertools_verif)]
+                        ktio::verif::point("take", 0);
                         let record = { records_arc_clone.lock().unwrap().next() };
                         if let Some(record) = record {
                             let kvec = self.vectorise_one(&record.seq);
@@ -203,6 +207,8 @@ impl OligoComputer {
                                 .collect();
                             let kvec_str = format!("{}\n", kvec_str.join(&self.delim));
                             let start_pos = kvec_str.len() * record.n;
+                            #[cfg(kmertools_verif)]
+                            ktio::verif::point("write", record.n as i64);
                             unsafe {
                                 mm_slice.write_at(kvec_str.as_bytes(), start_pos + header_len);
                             }
@@ -211,11 +217,33 @@ impl OligoComputer {
                             break;
                         }
                     }
+                    #[cfg(kmertools_verif)]
+                    ktio::verif::point("exit", 0);
                 });
             }
         });
 
         Ok(())
+    }
+
+    #[cfg(kmertools_verif)]
+    pub fn verif_vectorise_mmap(&self) -> Result<(), String> {
+        self.vectorise_mmap()
+    }
+
+    #[cfg(kmertools_verif)]
+    pub fn verif_vectorise_batch(&self) -> Result<(), String> {
+        self.vectorise_batch()
+    }
+
+    #[cfg(kmertools_verif)]
+    pub fn verif_vectorise_one(&self, seq: &[u8]) -> Vec<f64> {
+        self.vectorise_one(seq)
+    }
+
+    #[cfg(kmertools_verif)]
+    pub fn verif_header(&self) -> Vec<String> {
+        self.get_header()
     }
 
     fn vectorise_one(&self, seq: &[u8]) -> Vec<f64> {
@@ -224,6 +252,21 @@ impl OligoComputer {
 
         for (fmer, rmer) in KmerGenerator::new(seq, self.ksize) {
             let min_mer = u64::min(fmer, rmer);
+            #[cfg(kmertools_verif)]
+            {
+                ktio::verif::log(ktio::verif::Ev::Index {
+                    site: "oligo.pos_map",
+                    idx: min_mer as usize,
+                    len: self.pos_map.len(),
+                });
+                if (min_mer as usize) < self.pos_map.len() {
+                    ktio::verif::log(ktio::verif::Ev::Index {
+                        site: "oligo.vec",
+                        idx: self.pos_map[min_mer as usize],
+                        len: vec.len(),
+                    });
+                }
+            }
             unsafe {
                 // we already know the size of the vector and
                 // min_mer is absolutely smaller than that
